@@ -13,7 +13,7 @@ def run_check(tier):
                        "into typed targets; distinct = distinct (script, configuration) resp. (document bytes, script, policies)")
     chk.assumptions += ["independent parser/emitter = spec/JsonFormat.tla (strict RFC 8259 recogniser, renderer, five encoding forms), self-consistency checked by MC_JsonFormat",
                         "floating point lexical forms are table driven (dyadic values with listed spellings); BOM-less UTF-16/32 only where the RFC 4627 detection heuristic is defined",
-                        "XML: spec/XmlFormat.tla models the XML 1.0 subset the archive emits/accepts (declaration, elements, attributes, character data, predefined entities, character references, end-of-line normalisation); DTD, namespaces, comments, CDATA are outside",
+                        "XML: spec/XmlFormat.tla models the XML 1.0 subset the archive emits/accepts (declaration, elements, attributes, character data, predefined entities, character references, end-of-line normalisation, CDATA sections and comments in content); DTD, namespaces, processing instructions are outside",
                         "XML load semantics are prescribed only where the archive's data model is unambiguous (null vs empty, containers in scalar positions and numeric-looking strings are left open and counted under unspecified_scenarios)"]
     quick = tier == "quick"
     r = vlib.tlc("MC_JsonFormat", timeout=1500)
@@ -27,9 +27,9 @@ def run_check(tier):
     r = vlib.tlc("MC_XmlFormat", timeout=1500)
     chk.add_tlc("MC_XmlFormat", r)
     jc.save_leg(chk, tier, label="xml-save", arch="xml")
-    XS = "{0, 1, 2, 3, 4, 5, 6}"
+    XS = "{0, 1, 2, 3, 4, 5, 6, 7}"
     jc.load_leg(chk, tier, "typed", {"MaxOps": 0, "Widths": XS}, ["Export"], label="XML rendering loaded into typed targets", arch="xml")
-    jc.load_leg(chk, tier, "fields", {"MaxOps": 1 if quick else 2, "Widths": "{1, 3, 4}" if quick else XS},
+    jc.load_leg(chk, tier, "fields", {"MaxOps": 1 if quick else 2, "Widths": "{1, 3, 4, 7}" if quick else XS},
                 ["SentinelIntact", "UnchangedOnFailure", "Export"], label="XML rendering loaded by a request script", arch="xml")
     return chk.finish()
 
